@@ -7,7 +7,7 @@ TB = ("Trusted: Lean 4.33 kernel; axioms ⊆ {propext, Classical.choice, Quot.so
       "line-protocol drivers and the Python correspondence harness; ")
 CHECKS = {
  'C01': dict(cat='translation_validation', ref='DESIGN.md §5 C01',
-   text="Every explored design's REAL emitted Verilog is parsed and executed under a Lean formalisation of IEEE 1364 (expression sizing/signedness, continuous assigns to fixpoint, non-blocking updates, initial values, hierarchy) and compared from power-up, cycle by cycle, on every top-level output with the real simulator. The universally quantified part is proved in Lean: for every inlinable primitive the emitted expression form equals the Python leaf's landed value for ALL operand/result widths and values, and the emitted register body queues exactly Reg.clock's rule for controls of any width. Whole-design correctness (hierarchy flattening, module sharing) is validated per design, not proved for all designs.",
+   text="Every explored design's REAL emitted Verilog is parsed and executed under a Lean formalisation of IEEE 1364 (expression sizing/signedness, continuous assigns to fixpoint, non-blocking updates, initial values, hierarchy) and compared from power-up, cycle by cycle, on every top-level output with the real simulator. The universally quantified part is proved in Lean: for every inlinable primitive the emitted expression form equals the Python leaf's landed value for ALL operand/result widths and values, and the emitted register body queues exactly Reg.clock's rule for controls of any width. Design-level theorem for FLAT designs (14 primitive kinds + Reg, any netlist meeting an explicit well-formedness predicate, any text order of the assigns): settled Verilog store = simulator model's propagateAll on every net, one cycle = clk 1, power-up = initC, hence agreement after every clk of any history, stated on the shipped interpreter (Props/C01Flat). Elaboration of the emitted module text into that flat form, deeper hierarchy, module sharing and the remaining primitives are validated per design, not proved for all designs.",
    note=TB + "the formal reading of IEEE 1364-2005 in lean/Py4hwV/Verilog is ours alone (no Verilog simulator installed); value-level x; unsized literals 32-bit signed; gated/derived clocks not explored; division/modulo by zero excluded.",
    tech="translation validation against a Lean-formalised Verilog semantics + Lean proofs of per-primitive inline soundness and the register body"),
  'C04': dict(cat='proof', ref='DESIGN.md §5 C04',
@@ -47,7 +47,7 @@ def main():
          "engines": [{"name": "lean4-proof", "path": "lean/", "serves_properties": sorted(checks),
                       "kind_free_text": "Lean 4 model + theorems (lake project Py4hwV), Gen/ regenerated from /repo by harness/py2lean.py on every run, line-protocol drivers under lean/Drv for the correspondence"}],
          "checks": [], "not_applicable": [],
-         "notes": "fix: commits in /repo (see known_findings.json): 08ea991 self-loop rejection, d28699c pass limit, a9391b3 Reg power-up value, f9a08aa Mux2 Verilog select bit 0, ced6689 Reg Verilog enable != 0. Properties are added to `checks` as their Lean models, theorems and ties are integrated."}
+         "notes": "fix: commits in /repo and the recorded findings are listed in known_findings.json (status fixed / known) and DESIGN.md §11; seeded changes and which check catches which: seeded/*/meta.json and DESIGN.md §12. Every check was run under VERIF_SEED 0-8 on the unchanged tree (tools/seed_sweep.sh)."}
     for pid in sorted(checks):
         c = checks[pid]
         m['checks'].append({"property_id": pid, "quick_cmd": f"./check {pid} --tier quick", "thorough_cmd": f"./check {pid} --tier thorough",
